@@ -24,7 +24,9 @@ def _and_const(av, c):
             j = i
             while c >> j & 1:
                 j += 1
-            res = res + ((av / (1 << i)) % (1 << (j - i))) * (1 << i)
+            part = av if i == 0 else av / (1 << i)
+            part = part % (1 << (j - i))
+            res = res + (part if i == 0 else part * (1 << i))
             i = j
         else:
             i += 1
@@ -33,10 +35,28 @@ def _and_const(av, c):
 
 def _const_op(op, av, c):
     if op is ops.and_:
-        return _and_const(av, c)
+        return z3.simplify(_and_const(av, c))
     if op is ops.or_:
-        return av + (c - _and_const(av, c))
-    return av + c - 2 * _and_const(av, c)
+        return z3.simplify(av + (c - _and_const(av, c)))
+    return z3.simplify(av + c - 2 * _and_const(av, c))
+
+
+def _tz(t, depth=0):
+    """Number of trailing zero bits every value of the Int term t is known to have (structural)."""
+    if depth > 20:
+        return 0
+    if z3.is_int_value(t):
+        v = t.as_long()
+        return 64 if v == 0 else (v & -v).bit_length() - 1
+    if z3.is_app(t):
+        k = t.decl().kind()
+        if k == z3.Z3_OP_MUL:
+            return min(64, sum(_tz(c, depth + 1) for c in t.children()))
+        if k in (z3.Z3_OP_ADD, z3.Z3_OP_SUB):
+            return min(_tz(c, depth + 1) for c in t.children())
+        if k == z3.Z3_OP_ITE:
+            return min(_tz(t.arg(1), depth + 1), _tz(t.arg(2), depth + 1))
+    return 0
 
 
 def _bitop(op: BinFn, a: Union[SymbolicInt, int], b: Union[SymbolicInt, int]):
@@ -45,6 +65,14 @@ def _bitop(op: BinFn, a: Union[SymbolicInt, int], b: Union[SymbolicInt, int]):
         if isinstance(a, SymbolicBool) or isinstance(b, SymbolicBool):
             return NotImplemented
         if isinstance(a, SymbolicInt) and isinstance(b, SymbolicInt):
+            # field packing: (x << k) | y with 0 <= y < 2^k is x + y (pure linear arithmetic, no bit-vectors)
+            if op in (ops.or_, ops.xor):
+                for x, y in ((a, b), (b, a)):
+                    k = _tz(z3.simplify(x.var))
+                    if 0 < k < 64:
+                        if space.smt_fork(z3.And(x.var >= 0, y.var >= 0, y.var < 2 ** k), probability_true=0.99):
+                            return SymbolicInt(x.var + y.var)
+                        break
             # narrowest width first.  AND only depends on the low bits of the smaller operand; for widths <= 8
             # the result is a pure linear-integer term over the operands' bits (much cheaper than Int2BV).
             for w in (4, 8, 16, 32, W):
